@@ -217,8 +217,15 @@ def rp1(model):
         r.ok(call, 'lines without a left-hand side are skipped', nontrivial=True)
     else:
         r.fail(call, 'substitute is called with an empty pattern for lines without left-hand side')
-    if any(isinstance(n, ast.Call) and T.call_name(n) == 'find' and n.args and T.is_const(n.args[0], '#')
-           for n in iter_scope(f.node)):
+    def cuts_comment(n):
+        # lin[:lin.find('#')] behind a test, lin.partition('#')[0], lin.split('#')[0] / split('#', 1)[0]
+        if isinstance(n, ast.Call) and T.call_name(n) == 'find' and n.args and T.is_const(n.args[0], '#'):
+            return True
+        if isinstance(n, ast.Subscript) and T.is_const(n.slice, 0) and isinstance(n.value, ast.Call) \
+                and T.call_name(n.value) in ('partition', 'split') and n.value.args and T.is_const(n.value.args[0], '#'):
+            return True
+        return False
+    if any(cuts_comment(n) for n in iter_scope(f.node)):
         r.ok(f.node, '# starts a comment')
     else:
         r.fail(f.node, '# no longer starts a comment in the replacement file', stmt='# comment')
@@ -259,6 +266,14 @@ def ck1(model):
             r.fail(c, 'the single-letter pattern %s is not \\b<one letter>\\b' % c.value)
     # accepted patterns
     esc = [n for n in ast.walk(f.node) if isinstance(n, ast.Call) and unparse(n.func) == 're.escape']
+    if not esc:
+        # the pattern builder may be a helper of the module that this function calls
+        from ..callgraph import callgraph
+        for c in ast.walk(f.node):
+            if isinstance(c, ast.Call):
+                for t_ in callgraph(model).targets(c):
+                    if t_.mod is f.mod:
+                        esc += [n for n in ast.walk(t_.node) if isinstance(n, ast.Call) and unparse(n.func) == 're.escape']
     if esc:
         r.ok(esc[0], 'accepted patterns enter through re.escape', nontrivial=True)
     else:
